@@ -186,4 +186,88 @@ theorem calls_follow_fields (cc : Dm.Fmt.CharClasses) (fs : List FieldD) (named 
       | fmt a => simp [dbgCalls.go, hd, h1, h2]
   cases named <;> simp only [dbgCalls, FieldsD.list] <;> exact key fs 0 _
 
+/-! ### End to end: the derive's builder calls are std's, and so is the text -/
+
+open Dm.FmtX in
+/-- What std's `#[derive(Debug)]` expands to for the same definition: the type's (unraw) name, one
+`.field(..)` per field in declaration order — labelled with the unraw field name for named fields —
+and `finish()`. -/
+def stdDeriveCalls (named : Bool) : Nat → List FieldD → List DbgCall
+  | _, [] => []
+  | i, f :: rest =>
+    .value (if named then some (String.ofList (unraw (f.name.getD []))) else none)
+      (f.name.getD ('_' :: (toString i).toList)) :: stdDeriveCalls named (i + 1) rest
+
+open Dm.FmtX in
+def stdDeriveBody (ident : Name) (fields : FieldsD) : DbgBody :=
+  match fields with
+  | .unit => .unit (String.ofList (unraw ident))
+  | .unnamed fs => .tuple (String.ofList (unraw ident)) (stdDeriveCalls false 0 fs) true
+  | .named fs => .struct (String.ofList (unraw ident)) (stdDeriveCalls true 0 fs) true
+
+open Dm.FmtX in
+theorem dbgCalls_go_no_attrs (cc : Dm.Fmt.CharClasses) (named : Bool) (idents : List (Option Name)) :
+    ∀ (l : List FieldD) (i : Nat), (∀ f ∈ l, f.dbg = .none) →
+      dbgCalls.go cc named idents i l = (stdDeriveCalls named i l, true) := by
+  intro l
+  induction l with
+  | nil => intro i _; rfl
+  | cons f rest ih =>
+    intro i h
+    have hf : f.dbg = .none := h f (by simp)
+    simp only [dbgCalls.go, ih (i + 1) (fun g hg => h g (by simp [hg])), hf, stdDeriveCalls]
+
+open Dm.FmtX in
+/-- **Without `#[debug]` attributes the derive makes exactly the builder calls std's derive makes**:
+same name (raw prefix dropped), same fields in the same order with the same labels, `finish()` —
+for unit, tuple and named shapes of any size. -/
+theorem no_attr_body_is_std_derive (cc : Dm.Fmt.CharClasses) (ident : Name) (fields : FieldsD)
+    (h : ∀ f ∈ fields.list, f.dbg = .none) :
+    debugBody cc none ident fields = stdDeriveBody ident fields := by
+  cases fields with
+  | unit => rfl
+  | unnamed fs =>
+    simp only [debugBody, stdDeriveBody, dbgCalls, FieldsD.list]
+    rw [dbgCalls_go_no_attrs cc false _ fs 0 h]
+  | named fs =>
+    simp only [debugBody, stdDeriveBody, dbgCalls, FieldsD.list]
+    rw [dbgCalls_go_no_attrs cc true _ fs 0 h]
+
+open Dm.FmtX in
+/-- The value a body prints: its calls applied to the bound fields (`env` gives each binding's
+value, itself any tree of builder output). Bodies with formatted calls are not values of this kind. -/
+def bodyVal (env : Name → Val) : DbgBody → Option Val
+  | .unit n => some (.tuple n.toList .nil true)
+  | .tuple n cs ex =>
+    (cs.mapM fun (c : DbgCall) => match c with | DbgCall.value _ b => some (env b) | DbgCall.formatted .. => none).map fun (vs : List Val) =>
+      Val.tuple n.toList (Vals.ofList vs) ex
+  | .struct n cs ex =>
+    (cs.mapM fun (c : DbgCall) => match c with
+      | DbgCall.value (some l) b => some (l.toList, env b)
+      | _ => none).map fun (lvs : List (List Char × Val)) =>
+      Val.strukt n.toList (lvs.map Prod.fst) (Vals.ofList (lvs.map Prod.snd)) ex
+  | _ => none
+
+open Dm.FmtX in
+/-- **C06 end to end (attribute-free, `{:?}` / `{:#?}`)**: the text `derive_more::Debug` writes — its
+own calls, tuple shapes through the crate's `DebugTuple` — is the text std's derive writes — std's
+calls, core's builders — for every shape, every number of fields and field values nested to any
+depth. -/
+theorem derived_debug_is_std_debug (cc : Dm.Fmt.CharClasses) (ident : Name) (fields : FieldsD)
+    (h : ∀ f ∈ fields.list, f.dbg = .none) (env : Name → Val) (o : Opts) (ho : o.rest = 0) :
+    (bodyVal env (debugBody cc none ident fields)).map (fun v => v.fmt true o)
+      = (bodyVal env (stdDeriveBody ident fields)).map (fun v => v.fmt false o) := by
+  rw [no_attr_body_is_std_derive cc ident fields h]
+  cases bodyVal env (stdDeriveBody ident fields) with
+  | none => rfl
+  | some v => simp [nested_eq_std v o ho]
+
+open Dm.FmtX in
+/-- Non-vacuity: `struct r#type { a: _, r#fn: _ }` has a value, printed `type { a: 1, fn: 1 }`. -/
+example : (bodyVal (fun _ => .leaf fun _ => ['1'])
+    (debugBody { isStart := fun c => c.isAlpha, isCont := fun c => c.isAlphanum, isWs := fun c => c == ' ' } none "r#type".toList
+      (.named [{ name := some "a".toList, tyToks := "u8", generic := false },
+               { name := some "r#fn".toList, tyToks := "u8", generic := false }]))).map (fun v => v.fmt true ⟨false, 0⟩)
+    = some "type { a: 1, fn: 1 }".toList := by decide
+
 end Dm.Props.C06
